@@ -156,7 +156,12 @@ pub async fn run_case(addr: SocketAddr, certs: &Certs, seed: u64, i: u64, kind: 
                     .replier(&topic)
                     .with_request_decoder(StringCodec)
                     .with_reply_encoder(StringCodec)
-                    .with_handler(|req: String| async move { Ok::<String, std::convert::Infallible>(format!("re:{}", req)) })
+                    .with_handler(|req: String| async move {
+                        if req.starts_with("slow") {
+                            tokio::time::sleep(Duration::from_millis(350)).await;
+                        }
+                        Ok::<String, std::convert::Infallible>(format!("re:{}", req))
+                    })
                     .open()
                     .await
                     .map_err(|e| err_text(&e))?;
@@ -173,6 +178,8 @@ pub async fn run_case(addr: SocketAddr, certs: &Certs, seed: u64, i: u64, kind: 
                     .open()
                     .await
                     .map_err(|e| err_text(&e))?;
+                // a clone made before any outage: clones share the table of pending requests
+                let mut rq2 = rq.clone();
                 for j in 0..=outages {
                     let t0 = Instant::now();
                     let q = format!("q{}", j);
@@ -186,6 +193,35 @@ pub async fn run_case(addr: SocketAddr, certs: &Certs, seed: u64, i: u64, kind: 
                     let _ = writeln!(out, "outage {} op=request delivered={} ms={}", j, txt, t0.elapsed().as_millis());
                     if txt != "ok" {
                         return Err(txt);
+                    }
+                    // the clone recovers on its own, then both have calls in flight at the same time
+                    // (the first one answered slowly): each must get the reply to its own request
+                    let warm = with_deadline(budget + 1500, rq2.request(format!("w{}", j))).await;
+                    let warm_txt = match warm {
+                        None => "hung".to_string(),
+                        Some(Ok(v)) if v == format!("re:w{}", j) => "ok".to_string(),
+                        Some(Ok(v)) => format!("wrong:{}", v),
+                        Some(Err(e)) => err_text(&e),
+                    };
+                    let mut ca = rq.clone();
+                    let mut cb = rq2.clone();
+                    let (qa, qb) = (format!("slow{}", j), format!("fast{}", j));
+                    let (qa2, qb2) = (qa.clone(), qb.clone());
+                    let ta = tokio::spawn(async move { ca.request(qa2).await });
+                    tokio::time::sleep(Duration::from_millis(120)).await;
+                    let tb = tokio::spawn(async move { cb.request(qb2).await });
+                    let show = |r: Option<Result<Result<String, SeliumError>, tokio::task::JoinError>>, q: &str| match r {
+                        None => "hung".to_string(),
+                        Some(Ok(Ok(v))) if v == format!("re:{}", q) => "ok".to_string(),
+                        Some(Ok(Ok(v))) => format!("wrong:{}", v),
+                        Some(Ok(Err(e))) => err_text(&e),
+                        Some(Err(_)) => "task_panicked".to_string(),
+                    };
+                    let ra = show(with_deadline(3000, ta).await, &qa);
+                    let rb = show(with_deadline(3000, tb).await, &qb);
+                    let _ = writeln!(out, "outage {} op=clones warm={} slow={} fast={}", j, warm_txt, ra, rb);
+                    if warm_txt != "ok" || ra != "ok" || rb != "ok" {
+                        return Err(format!("clones_after_outage_{}:warm={},slow={},fast={}", j, warm_txt, ra, rb));
                     }
                     if j < outages {
                         a.__verif_close_connection().await;
